@@ -49,3 +49,17 @@ PROPS['C15'] = {
     'assumptions': A_COMMON,
     'not_decided': ['clone structure as a whole (copyTreeRecur), graft/merge/insert transformers: not yet under contract'],
 }
+
+PROPS['C20'] = {
+    'level': 'proof', 'claimed': True,
+    'claim': 'weakest pre-expectation argument for the two reservoir samplers (tips: cmd.randomTips; trees: gotree sample, with and without replacement): the real loop bodies are proved, for every state and every draw r, to be exactly the abstract reservoir step (one draw uniform in [0, #seen+1) resp. [0,#seen); slot r replaced iff r < k resp. r == 0; all other slots unchanged), and the lemmas prove by real arithmetic that this step preserves the invariant expectation Pr[element in sample] = k/#seen (resp. 1/#seen per slot) and that no other draw range does. Unbounded in input size, sample size and seed',
+    'level_note': 'relative to: soundness of the wpe loop rule (A-PGCL), math/rand.Intn uniform on [0,n) (A-RAND), the VC generator, go/ssa, the SMT solvers. Shuffles (ShuffleTips, RotateNeighbors) and the uniform tree generator are not yet under contract',
+    'packages': ['./tree', './hashmap', './io/...', './support', './acr', './asr', './cmd'],
+    'functions': [('cmd.randomTips', {'only': ['callsite', 'step', 'inv', 'post', 'pre', 'bounds', 'nil', 'loopframe', 'frame']}),
+                  ('cmd.sampleCmd.RunE', {'only': ['callsite', 'step', 'inv', 'nilchan']})],
+    'lemma_files': ['cmd'],
+    'trusted_base': TB_COMMON + ['A-PGCL: weakest pre-expectation calculus (loop rule with invariant expectation)', 'A-RAND: rand.Intn(n) uniform on [0,n)'],
+    'assumptions': A_COMMON,
+    'not_decided': ['uniformity over labelled topologies of RandomUniformBinaryTree (counting lemma)', 'quality of math/rand', 'ShuffleTips / RotateNeighbors permutations: not yet under contract'],
+    'technique': 'contract-based deductive verification: loop bodies proved equal to the abstract reservoir step (VCs over go/ssa, z3/cvc5); expectation identities as real-arithmetic lemmas',
+}
